@@ -20,7 +20,7 @@ STUBS = ["skimage.img_as_float / img_as_float64 on float arrays = identity", "An
 OUTSIDE = ["skimage's own TVD variants (compiled)", "the numba shrinkage of the isotropic split-Bregman branch", "AMG hierarchy state / re-used Wasserstein solver objects (factorisation reuse is covered by C08)"]
 ASSUMPTIONS = ["mu, omega, ell, h positive", "every path starts from the freshly imported library (forked child) = 'fresh interpreter'"]
 
-SHAPES = {"2x2": (2, 2), "3": (3,), "2x3": (2, 3), "4x2": (4, 2), "4x4": (4, 4)}
+SHAPES = {"2x2": (2, 2), "3": (3,), "2x3": (2, 3), "4x2": (4, 2), "4x4": (4, 4), "3x3": (3, 3), "2x2x2": (2, 2, 2), "5": (5,)}
 
 
 def bounds(tier):
@@ -30,15 +30,15 @@ def bounds(tier):
 def configs(tier):
     out = []
     hs = (0, 1) if tier == "quick" else (0, 1, 2, 3)
-    for sh in ("2x2", "3", "2x3"):
+    for sh in (("2x2", "3", "2x3") if tier == "quick" else ("2x2", "3", "2x3", "3x3", "2x2x2", "5")):
         for hist in hs:
-            for it in (1, 2):
-                if it == 2 and sh != "2x2":
+            for it in ((1, 2) if tier == "quick" else (1, 2, 3)):
+                if it >= 2 and sh not in ("2x2", "3"):
                     continue
                 out.append(dict(kind="jacobi", shape=sh, hist=hist, maxiter=it))
             for via in ("default", "explicit_shared", "image_default"):
                 out.append(dict(kind="h1", shape=sh, hist=hist, via=via))
-            if sh != "3":
+            if sh not in ("3", "5", "2x2x2"):
                 for its in (1, 2):
                     if its == 2 and sh != "2x2":
                         continue
